@@ -60,9 +60,9 @@ func c09State(r *rand.Rand, kind int) ref.State {
 func init() {
 	register("C09", func() *fw.Prop {
 		return &fw.Prop{
-			ID:    "C09",
-			Level: "exploration",
-			Rule:  "cases = 'perm' (face, 12-element state: all-zero, all p-1, single-hot edge values, all-edge, random) -> permutation output vs. the naive reference Poseidon (full MDS and full round constants in partial rounds, independent of the fast-round tables); 'hash' (face, input length 0..40 with canonical and non-canonical v+k*p elements) -> HashNoPad vs. reference over residues; 'ntom' (input length, output count 1..12) -> HashNToMNoPad; 'func' (state, hint site inside the permutation, alternative family) -> a substituted hint output must be refused by the site's own constraints (the permutation is a function); 'solver' -> the same on a really compiled R1CS permutation circuit with solver.OverrideHint, where any accepted output different from the reference output is a violation. Non-trivial = outputs compared / substitution differed from honest; distinct by case id.",
+			ID:          "C09",
+			Level:       "exploration",
+			Rule:        "cases = 'perm' (face, 12-element state: all-zero, all p-1, single-hot edge values, all-edge, random) -> permutation output vs. the naive reference Poseidon (full MDS and full round constants in partial rounds, independent of the fast-round tables); 'hash' (face, input length 0..40 with canonical and non-canonical v+k*p elements) -> HashNoPad vs. reference over residues; 'ntom' (input length, output count 1..12) -> HashNToMNoPad; 'func' (state, hint site inside the permutation, alternative family) -> a substituted hint output must be refused by the site's own constraints (the permutation is a function); 'solver' -> the same on a really compiled R1CS permutation circuit with solver.OverrideHint, where any accepted output different from the reference output is a violation. Non-trivial = outputs compared / substitution differed from honest; distinct by case id.",
 			Assumptions: []string{"the naive reference is validated on the plonky2 zero-state vector and the public-input-hash vector at start"},
 			MinEvents:   100000,
 			Setup:       func(ctx *fw.Ctx) error { return refSelfTest(false) },
